@@ -51,6 +51,25 @@ func fuzzSpace(w *W, f func(c fuzzCase)) {
 		run(s, fmt.Sprintf("regress#%d", i), false)
 	}
 
+	// (1b) the hand-written statement forms of the EXPLAIN-shape checks (every CREATE form, every ALTER command): whole, and cut after
+	// every word — rarely used clauses and flags (IS_OBJECT_ID, INNER ENGINE, EMPTY AS, …) that neither corpus halves nor the grammar
+	// generator reach reliably
+	{
+		forms := append([]string{}, ddlCreateForms...)
+		forms = append(forms, ddlCreateDegenerate...)
+		va, de := ddlAlterCommands()
+		for _, c := range append(va, de...) {
+			forms = append(forms, "ALTER TABLE t "+c)
+		}
+		for i, s := range forms {
+			run(s, fmt.Sprintf("forms#%d", i), false)
+			words := strings.Fields(s)
+			for k := 2; k < len(words); k++ {
+				run(strings.Join(words[:k], " "), fmt.Sprintf("forms#%d:cut%d", i, k), false)
+			}
+		}
+	}
+
 	// (2) every corpus statement as is
 	for i, s := range stmts {
 		if !w.Thorough() && i%2 == 1 {
